@@ -297,6 +297,8 @@ def c09_units(tier):
 
 def c09_filter(v):
     k = v['key']
+    if v.get('unit') == 'c13-accessors' and k in ('at', 'grid.at', 'absoluteFromRelative', 'relativeFromAbsolute', 'intervalIndexFromAbsolute', 'front', 'back'):
+        return True   # "bounds-checked accessors throw for every index outside the view" is part of C09's statement
     return k.startswith('crash:') or k in ('uninit', 'divzero') or k.endswith(':solver-index') or k == 'solver-index' or k.endswith('invalid-result')
 
 
@@ -330,4 +332,59 @@ CHECKS['C17'] = dict(
     bounds=dict(quick='n in {1,2,3,4,6}; 5 weights; 7 order pairs; 2 grids x 256 window pairs x 3 patterns', thorough='n = 1..8; 13 order pairs; 4 patterns'),
     guards=dict(classes=['exact-regime', 'inexact-regime', 'nocommon'], counters=['inexact_regime_differs']),
     assumptions=['inputs outside the alphabet are not covered; this is enumeration evidence for a numerical claim'],
+)
+
+
+def c16_units(tier):
+    def u(name, cxx, opt, chk):
+        return unit(name, 'checks/c16_float.cpp', 'raw', cxx=cxx, group='same-inputs', flags=[opt, '-ffp-contract=off'] + (['-DBSPLINE_ADD_TEST_CHECKS'] if chk else []))
+    if tier == 'quick':
+        return [u('gcc-O0', 'g++', '-O0', False), u('gcc-O0-chk', 'g++', '-O0', True), u('gcc-O2', 'g++', '-O2', False), u('gcc-O2-chk', 'g++', '-O2', True)]
+    us = []
+    for cxx, cn in (('g++', 'gcc'), ('clang++', 'clang')):
+        for opt in ('-O0', '-O1', '-O2', '-O3'):
+            for chk in (False, True):
+                us.append(u('%s%s%s' % (cn, opt, '-chk' if chk else ''), cxx, opt, chk))
+    return us
+
+
+def c16_post(tier, units, jobs, viols, counters, classes):
+    """values must not depend on whether the optional self-checks are compiled in: compare the output hashes of
+    every (compiler, optimisation level) pair of builds, shard by shard"""
+    import json, os
+    hashes = {}
+    for (u, k, cmd, env, out) in jobs:
+        if os.path.exists(out):
+            try:
+                hashes[(u['name'], k)] = json.load(open(out))['counters'].get('hash:outputs')
+            except Exception:
+                pass
+    pairs = 0
+    for (name, k), h in hashes.items():
+        if name.endswith('-chk'):
+            continue
+        h2 = hashes.get((name + '-chk', k))
+        if h2 is None or h is None:
+            continue
+        pairs += 1
+        if h != h2:
+            viols.append(dict(unit=name, shard='%d/16' % k, idx=-1, key='selfcheck-dependence', desc='build %s vs %s-chk, shard %d' % (name, name, k),
+                              msg='floating-point outputs differ between the builds with and without BSPLINE_ADD_TEST_CHECKS (output hash %s vs %s)' % (h, h2)))
+    counters['chk_on_off_hash_pairs_compared'] = pairs
+    counters.pop('hash:outputs', None)
+
+
+CHECKS['C16'] = dict(
+    title='Floating-point results stay at rounding level of the exact result',
+    level='exploration',
+    engine='E1 input enumerator x build-configuration matrix',
+    technique='bounded-exhaustive enumeration of well-scaled grids, knot multiplicities, orders and operations in float, double and long double across a build matrix (compiler x optimisation level x self-checks on/off); every produced number is converted exactly to a rational and compared with an independent exact reference under the stated 2^20 eps bound relative to the sum of absolute values of the terms; output bit patterns hashed and compared between self-check on/off builds',
+    level_text='All 375 grids formed by 2..4 of the points {-8,-63/8,-4,-1/8,0,1/8,1,7/2,63/8,8}; knot multiplicities 1..2 at every point; generation of orders 0..6 (every coefficient), and for 10 order pairs from 0..3 on three window placements: evaluation at exactly representable points, a+b, a*b, Dx<1>, Dx<2>, X<1>, X<2>, X<3>, spline factor, X1*Dx1-2, two linear and four bilinear forms. The magnitude comes from a reference written in the midpoint formulation over (value, magnitude) pairs of rationals (not from the operation sequence of the tree under test), cross-checked against the global-basis reference in every case.',
+    level_note='Tolerance-based enumeration evidence for a numerical-stability claim, not an error analysis (weakest kind in this design). Trusted: GMP, exact float->rational conversion, the (value, magnitude) reference in checks/c16_float.cpp. -ffp-contract=off so that both compilers evaluate the same expressions.',
+    units=c16_units,
+    post=c16_post,
+    rule='cases = (type, grid, multiplicity pattern, order) for generation and (type, grid, order pair, window pair) for the operations; counters.comparisons = individual numbers compared. Every case is non-trivial (produces numbers).',
+    bounds=dict(quick='375 grids; builds g++ {-O0,-O2} x self-checks {off,on}', thorough='builds {g++, clang++} x {-O0,-O1,-O2,-O3} x {off,on}'),
+    guards=dict(classes=['gen:p0', 'gen:p6', 'ops'], counters=['comparisons', 'chk_on_off_hash_pairs_compared']),
+    assumptions=['inputs outside the alphabet are not covered'],
 )
